@@ -111,6 +111,17 @@ Theorem c04_cache_arm_without_subject_refuted :
   get_signed_via PCache srv0 now (b "bob") None moved = Some (b "bobs-hash").
 Proof. exact cache_arm_without_subject_refuted. Qed.
 
+(* What "purpose-bound" does NOT reach inside the storage kind: the signed data_type claim is not
+   compared with the type the record is requested under (GetSigned selects the row by the unsigned
+   type column).  The statement distinguishes the five artefact KINDS; keymaster writes and reads a
+   single data type (1, the password hash), so no cross-purpose acceptance exists in the daemon -
+   recorded as an observation, and made explicit here so that a second data type would not be
+   added in the belief that the claim protects it. *)
+Theorem c04_storage_data_type_unbound : forall st now issue user dt dt' data exp col,
+  c_storage st now user {| r_col_exp := col; r_jws := p_storage st issue user dt data exp |} =
+  c_storage st now user {| r_col_exp := col; r_jws := p_storage st issue user dt' data exp |}.
+Proof. exact storage_data_type_unbound. Qed.
+
 (* ---------------------------------------------------------------- non-vacuity *)
 Definition idp0 : idp :=
   {| srv := srv0; clients := [ {| cl_id := b "clientA"; cl_secret := b "secretA" |};
